@@ -1,3 +1,3 @@
 from vlib import H
 PROPERTY='T00'; CLAIM='dev'; DISABLED=True
-HARNESSES=[H('ev','ev.cpp','h_ev',link=['script/interpreter.cpp', 'script/script.cpp', 'script/script_error.cpp', 'primitives/transaction.cpp', 'uint256.cpp', 'hash.cpp', 'crypto/ripemd160.cpp', 'crypto/sha1.cpp', 'crypto/sha256.cpp'],shadow=['nofmt'],unwind=8,timeout=400,objbits=11,memunwind=40)]
+HARNESSES=[H('cc','cc.cpp','h_cc',link=['coins.cpp', 'primitives/transaction.cpp', 'script/script.cpp', 'uint256.cpp', 'hash.cpp'],shadow=['nofmt','nopool'],variants=[{'STEP':4}],unwind=20,timeout=100,objbits=11,memunwind=112)]
